@@ -4,6 +4,7 @@ import AdaptaVerif.Model.Nudge
 import AdaptaVerif.Check.Attach
 import AdaptaVerif.Check.Nudge
 import AdaptaVerif.Model.NudgeRegionRun
+import AdaptaVerif.Model.NudgeSegs
 /-!
 Driver `driver_c10`: orthogonal nudging (see harness/c10.cpp for the line format).
 SPECFAIL (property clause violated, decided by the checkers of Check/Nudge.lean / Check/Attach.lean
@@ -153,6 +154,205 @@ def regionFindings (c : Case) (exempt : Nat → Nat → Bool) : List Finding × 
     st := st ++ o.stats
   return (fs, st)
 
+
+/-! ### segment tie (builder N1): `buildOrthogonalNudgingSegments` + `buildOrthogonalChannelInfo` against Model/NudgeSegs.lean
+(harness/c10_segs.h: the state at the start of every pass; the dumped regions of the pass = what the two builders produced) -/
+open AdaptaVerif.Model.NudgeRegion AdaptaVerif.Model.NudgeSegs in
+structure DPass where
+  idx : Nat
+  dim : Nat
+  firstRegion : Nat
+  nf : Bool
+  pz : Bool
+  conns : List Conn
+  obs : List Obs
+  deriving Inhabited
+
+open AdaptaVerif.Model.NudgeRegion AdaptaVerif.Model.NudgeSegs in
+def parsePasses (c : Case) : List DPass := Id.run do
+  let b (s : String) : Bool := s == "1"
+  let mut out : Array DPass := #[]
+  for l in c.get "pass" do
+    out := out.push { idx := nat! l[0]!, dim := nat! l[1]!, firstRegion := nat! l[2]!, nf := b l[3]!, pz := b l[4]!, conns := [], obs := [] }
+  for l in c.get "pconn" do
+    let p := nat! l[0]!
+    let n := nat! l[3]!
+    let ps := (List.range n).map (fun i => (⟨rat! l[4 + 2 * i]!, rat! l[5 + 2 * i]!⟩ : Pt))
+    out := out.modify p (fun d => { d with conns := d.conns ++ [{ id := nat! l[1]!, fixedRoute := b l[2]!, ps := ps, cache := [] }] })
+  for l in c.get "pcps" do
+    let p := nat! l[0]!
+    let id := nat! l[1]!
+    let n := nat! l[2]!
+    let cache := (List.range n).map (fun i => (nat! l[3 + 3 * i]!, (⟨rat! l[4 + 3 * i]!, rat! l[5 + 3 * i]!⟩ : Pt)))
+    out := out.modify p (fun d => { d with conns := d.conns.map (fun cn => if cn.id == id then { cn with cache := cache } else cn) })
+  for l in c.get "pobs" do
+    let p := nat! l[0]!
+    let kind := match l[2]! with | "0" => ObsKind.shape | "1" => ObsKind.junction | _ => ObsKind.other
+    let o : Obs := { kind := kind, inScan := b l[3]!,
+                     box := ⟨rat! l[4]!, rat! l[5]!, rat! l[6]!, rat! l[7]!⟩, rbox := ⟨rat! l[8]!, rat! l[9]!, rat! l[10]!, rat! l[11]!⟩ }
+    out := out.modify p (fun d => { d with obs := d.obs ++ [o] })
+  return out.toList
+
+/-- all sublists with exactly `k` elements -/
+def subsetsOfSize : Nat → List Nat → List (List Nat)
+  | 0, _ => [[]]
+  | _ + 1, [] => []
+  | k + 1, x :: xs => (subsetsOfSize k xs).map (x :: ·) ++ subsetsOfSize (k + 1) xs
+
+/-- model segment during the comparison: both resolutions of the scan line's address ties, the route indexes it writes -/
+structure MState where
+  lo : AdaptaVerif.Model.NudgeSegs.MSeg
+  hi : AdaptaVerif.Model.NudgeSegs.MSeg
+  used : Bool := false
+  deriving Inhabited
+
+open AdaptaVerif.Model.NudgeRegion AdaptaVerif.Model.NudgeSegs in
+/-- One pass.  The model's segment list is compared with the union of the dumped regions, in dump order, on a copy of the
+    routes that receives every dumped write-back (positions and extents of a segment are read from the routes at the time its
+    region is dumped, as `verifDescribe` does).  A dumped segment with two indexes must BE a model segment: same connector,
+    extent, position, every flag, checkpoints, and limits (exactly; where two scan-line nodes have equal positions the C++
+    orders them by address: the dumped limit must lie between the model's two resolutions).  A dumped segment with more than two
+    indexes was merged by `linesort` (`mergeWith`): it must be the merge of that many model segments of its connector (limits =
+    intersection).  At the end of a completed pass no model segment may be left over. -/
+def checkPassSegs (p : DPass) (stage : String) (regs : List (DRegion × List Nat)) (complete : Bool) : Option String × List String := Id.run do
+  let dim := p.dim
+  let ad := alt dim
+  let so := scanObs dim p.obs
+  let base := buildSegs p.pz p.nf p.obs dim p.conns
+  let mut ms : Array MState := (base.map (fun s => ({ lo := withChannel false so s, hi := withChannel true so s } : MState))).toArray
+  let mut routes : List (Nat × Array Pt) := p.conns.map (fun c => (c.id, c.ps.toArray))
+  let mut stats : List String := []
+  let here := s!"segment tie, pass {p.idx} (dim {dim}, {stage}, option nudgeFinal={p.nf})"
+  let cur (routes : List (Nat × Array Pt)) (m : MSeg) : Rat × Rat × Rat :=
+    match lookup routes m.seg.conn with
+    | some r => ((r.getD m.idxLow default).c ad, (r.getD m.idxHigh default).c ad, (r.getD m.idxLow default).c dim)
+    | none => (0, 0, 0)
+  let showS (s : RSeg) : String :=
+    s!"connector {s.conn} extent [{ratToString s.lo},{ratToString s.hi}] at {ratToString s.pos} limits [{ratToString s.minLim},{ratToString s.maxLim}] fixed={s.fixed} final={s.finalSeg} endsInShape={s.endsInShape} single={s.single} sBend={s.sBend} zBend={s.zBend} checkpoints={s.cps.map (fun c => (ratToString c.1, ratToString c.2))}"
+  for (r, nidxs) in regs do
+    let mut writes : List (Nat × List Nat × Rat) := []
+    for (ds, k) in r.segs.zipIdx do
+      let nidx := nidxs.getD k 2
+      let wr := r.wrLow.getD k ds.pos
+      -- candidates: unused model segments of that connector at that place
+      -- (two segments of one connector can share extent and position: a route folding back onto itself; prefer the one
+      -- that agrees in the flags)
+      let mut found : Option Nat := none
+      let mut exact := false
+      for j in [0:ms.size] do
+        let m := ms[j]!
+        if !exact && !m.used && m.lo.seg.conn == ds.conn then
+          let (l, h, ps) := cur routes m.lo
+          if l == ds.lo && h == ds.hi && ps == ds.pos then
+            let a := m.lo.seg
+            let same := a.fixed == ds.fixed && a.finalSeg == ds.finalSeg && a.endsInShape == ds.endsInShape && a.single == ds.single &&
+              a.sBend == ds.sBend && a.zBend == ds.zBend && a.cps == ds.cps
+            if same then found := some j; exact := true
+            else if found.isNone then found := some j
+      if nidx == 2 then
+        match found with
+        | none => return (some s!"{here}: region {r.idx} holds a segment the model does not build: {showS ds}", stats)
+        | some j =>
+          let m := ms[j]!
+          let a := m.lo.seg
+          let flagsOk := a.fixed == ds.fixed && a.finalSeg == ds.finalSeg && a.endsInShape == ds.endsInShape && a.single == ds.single &&
+            a.sBend == ds.sBend && a.zBend == ds.zBend && a.cps == ds.cps
+          let minOk := decide (a.minLim ≤ ds.minLim) && decide (ds.minLim ≤ m.hi.seg.minLim)
+          let maxOk := decide (a.maxLim ≤ ds.maxLim) && decide (ds.maxLim ≤ m.hi.seg.maxLim)
+          if !(flagsOk && minOk && maxOk) then
+            let what := if !flagsOk then "flags / checkpoints" else if !minOk then "minSpaceLimit" else "maxSpaceLimit"
+            return (some s!"{here}: region {r.idx}, {what} differ: code has {showS ds}; model (route indexes {m.lo.idxLow},{m.lo.idxHigh}) has {showS { a with lo := ds.lo, hi := ds.hi, pos := ds.pos }}{if a.minLim != m.hi.seg.minLim || a.maxLim != m.hi.seg.maxLim then s!" .. [{ratToString m.hi.seg.minLim},{ratToString m.hi.seg.maxLim}] (address tie in the scan line)" else ""}", stats)
+          if a.minLim != m.hi.seg.minLim || a.maxLim != m.hi.seg.maxLim then stats := "segtie.address-tie" :: stats
+          stats := (if ds.fixed then "segtie.seg.fixed" else if ds.finalSeg then "segtie.seg.final" else if ds.sBend || ds.zBend then "segtie.seg.zigzag" else "segtie.seg.cbend") :: stats
+          if !ds.cps.isEmpty then stats := "segtie.seg.with-checkpoints" :: stats
+          if ds.endsInShape then stats := "segtie.seg.endsInShape" :: stats
+          ms := ms.set! j { m with used := true }
+          if !ds.fixed then writes := (ds.conn, [m.lo.idxLow, m.lo.idxHigh], wr) :: writes
+      else
+        -- merged by linesort (`mergeWith`): nidx/2 unused model segments of the connector that together span the merged extent,
+        -- whose limits intersect to the dumped limits and one of which (the surviving `currSeg`) carries the dumped flags
+        let mut cands : List Nat := []
+        for j in [0:ms.size] do
+          let m := ms[j]!
+          if !m.used && m.lo.seg.conn == ds.conn then
+            let (l, h, _) := cur routes m.lo
+            if ds.lo ≤ l && h ≤ ds.hi then cands := cands ++ [j]
+        let msNow := ms
+        let routesNow := routes
+        let o := r.opts
+        -- the record of a model segment as the region code sees it now (extent and position from the current routes)
+        let now (j : Nat) (hiVar : Bool) : RSeg :=
+          let m := msNow[j]!
+          let (l, h, ps) := cur routesNow m.lo
+          { (if hiVar then m.hi.seg else m.lo.seg) with lo := l, hi := h, pos := ps }
+        -- `mergeWith`
+        let merge (a b : RSeg) : RSeg :=
+          let mn := max a.minLim b.minLim
+          let mx := min a.maxLim b.maxLim
+          let mid := if b.pos < a.pos then a.pos - (a.pos - b.pos) / 2 else if b.pos > a.pos then a.pos + (b.pos - a.pos) / 2 else a.pos
+          { a with minLim := mn, maxLim := mx, pos := min mx (max mn mid), lo := min a.lo b.lo, hi := max a.hi b.hi }
+        -- the surviving segment `a` (it carries the dumped flags) absorbs the others one by one, each time `shouldAlignWith` holds
+        let good (parts : List Nat) : Bool :=
+          parts.any (fun ja =>
+            let a := now ja false
+            let flagsOk := a.fixed == ds.fixed && a.finalSeg == ds.finalSeg && a.endsInShape == ds.endsInShape && a.single == ds.single && a.sBend == ds.sBend && a.zBend == ds.zBend && a.cps == ds.cps
+            let rest := parts.filter (· != ja)
+            let step (hiVar : Bool) : Option RSeg := rest.foldl (fun (acc : Option RSeg) jb =>
+              match acc with
+              | none => none
+              | some x => let b := now jb hiVar
+                          if shouldAlignWith o x b then some (merge x b) else none) (some (now ja hiVar))
+            match step false, step true with
+            | some lo, some hi =>
+              flagsOk && lo.lo == ds.lo && lo.hi == ds.hi && decide (lo.minLim ≤ ds.minLim) && decide (ds.minLim ≤ hi.minLim) &&
+                decide (lo.maxLim ≤ ds.maxLim) && decide (ds.maxLim ≤ hi.maxLim) && (lo.pos == ds.pos || lo.minLim != hi.minLim || lo.maxLim != hi.maxLim)
+            | _, _ => false)
+        let parts := ((subsetsOfSize (nidx / 2) cands).find? good).getD []
+        if parts.isEmpty || nidx % 2 != 0 then
+          return (some s!"{here}: region {r.idx}: merged segment ({nidx} indexes) {showS ds} is not the merge of {nidx / 2} of the model's {cands.length} unmerged segments of that connector inside its extent", stats)
+        stats := "segtie.seg.merged" :: stats
+        let mut idxs : List Nat := []
+        for j in parts do
+          idxs := idxs ++ [ms[j]!.lo.idxLow, ms[j]!.lo.idxHigh]
+          ms := ms.set! j { ms[j]! with used := true }
+        writes := (ds.conn, idxs, wr) :: writes
+    -- write-back of this region (and of linesort's merge) onto the copy of the routes
+    for (cid, idxs, v) in writes do
+      routes := routes.map (fun (id, arr) => if id == cid then
+        (id, idxs.foldl (fun (a : Array Pt) i => a.modify i (fun q => if dim == 0 then { q with x := v } else { q with y := v })) arr) else (id, arr))
+  if complete then
+    for m in ms do
+      if !m.used then
+        return (some s!"{here}: the model builds a segment that is in no dumped region: {showS m.lo.seg} (route indexes {m.lo.idxLow},{m.lo.idxHigh})", stats)
+  stats := "segtie.passes" :: stats
+  return (none, stats)
+
+open AdaptaVerif.Model.NudgeRegion in
+/-- the segment tie for one case: regions are attributed to passes by `firstRegion` -/
+def segFindings (c : Case) (complete : Bool) : Option String × List String := Id.run do
+  let ps := parsePasses c
+  if ps.isEmpty then return (none, [])
+  let rs := parseRegions c
+  let nidxs : List (Nat × Nat × Nat) := (c.get "nseg").toList.map (fun l => (nat! l[0]!, nat! l[1]!, nat! l[14]!))
+  let mut stats : List String := []
+  let bounds := ps.map (·.firstRegion)
+  for (p, k) in ps.zipIdx do
+    let stop := (bounds.drop (k + 1)).headD rs.length
+    let mine := rs.filter (fun r => p.firstRegion ≤ r.idx && r.idx < stop)
+    let regs := mine.map (fun r => (r, (nidxs.filter (fun t => t.1 == r.idx)).map (·.2.2)))
+    if mine.any (fun r => r.dim != p.dim) then
+      return (some s!"segment tie: pass {p.idx} (dim {p.dim}) is followed by a region of dimension {1 - p.dim}", stats)
+    let stage := match mine with | r :: _ => (if r.ju then "unifying" else "nudging") | [] => "empty"
+    -- only the last pass can be cut short by a library assertion
+    let (f, st) := checkPassSegs p stage regs (complete || k + 1 < ps.length)
+    stats := stats ++ st
+    if f.isSome then return (f, stats)
+  -- regions before the first recorded pass would be segments built without a pass start
+  match rs.head?, ps.head? with
+  | some r, some p => if r.idx < p.firstRegion then return (some "segment tie: a region precedes the first pass record", stats)
+  | _, _ => pure ()
+  return (none, stats)
+
 def checkCase (strict : List String) (c : Case) : CaseResult := Id.run do
   for l in c.lines do
     if (l[0]! == "route" || l[0]! == "disp") && l.any (fun t => t == "nan" || t == "-nan" || t == "inf" || t == "-inf") then
@@ -187,9 +387,23 @@ def checkCase (strict : List String) (c : Case) : CaseResult := Id.run do
       | _, _ => false
     let (fs, sts) := regionFindings c exempt
     for k in sts do s := bump s k
+    -- segment tie (builder N1)
+    let (sf, sst) := segFindings c (c.get "assert").isEmpty
+    for k in sst do s := bump s k
+    match sf with
+    | some m => s := bump s "segtie.diverge"; if diverged.isNone then diverged := some m
+    | none => pure ()
+    -- a route that folds back onto itself has two parallel segments sharing a route point; when both are shifted (option
+    -- nudgeFinal) the later write-back overwrites the shared point and the earlier segment ends up NOT straight
+    -- (writtenLow ≠ writtenHigh in the dump: a diagonal piece in displayRoute()).  The region model assumes disjoint index
+    -- sets; the property text promises nothing about it: counted, reported as a suspected defect (reports/bN1.md)
+    let crooked := (c.get "nseg").any (fun l => l[15]! != l[16]!)
+    if crooked then s := bump s "finding.diagonal-after-shared-point"
     for f in fs do
       match f with
-      | .diverge m => if diverged.isNone then diverged := some m
+      | .diverge m =>
+        if crooked && (m.splitOn "written position").length > 1 then s := bump s "regiontie.exempt.shared-point"
+        else if diverged.isNone then diverged := some m
       | .spec cls m =>
         if cls == "narrow-sep" then s := gated s "narrow-sep" m
         else if finalNudge then s := gated s "opt-final-nudge" ("[" ++ cls ++ "] " ++ m)
@@ -230,7 +444,10 @@ def checkCase (strict : List String) (c : Case) : CaseResult := Id.run do
     | some cps =>
       s := bump s "checkpoints"
       if !checkpointsInOrder r cps then
-        s := fail s s!"connector {id}: checkpoint {cps.map showP} not on route() {r.map showP}"
+        -- family `segs` (random checkpoints): a checkpoint the router could not reach ("skipping checkpoint") is C11's clause;
+        -- C10's "never moves a checkpoint off its route" starts from a checkpoint that is on route()
+        if cfg[8]?.getD "" == "segs" then s := bump s "checkpoints.not-on-route"
+        else s := fail s s!"connector {id}: checkpoint {cps.map showP} not on route() {r.map showP}"
       else if !checkpointsInOrder dr cps then
         let msg := s!"connector {id}: checkpoint {cps.map showP} on route() but no longer on displayRoute() {dr.map showP}"
         if finalNudge then s := gated s "opt-final-nudge" msg
